@@ -408,11 +408,30 @@ class C02(WithEL):
         if completed(case, impl) and case["cfg"]["duration"] is None and case["cfg"]["maxIter"] is None:
             # nothing is lost: a run that ended by exhaustion made the callback of every accepted timer request
             # whose (node, name) was never cancelled in the whole run
-            cancelled = {(c["n"], req[1]) for c in cbs for req, ok, _ in c["reqs"] if req[0] == "cancelTimer"}
-            for k, v in acc_t.items():
-                if (k[0], k[1]) not in cancelled and fired[k] < v:
-                    fails.append(("C02:lost", f"timer {k} was accepted {v} times and never cancelled, but fired {fired[k]} "
-                                  f"times in a run that ended by exhaustion"))
+            owed = defaultdict(Counter)       # (node, name) -> times of the accepted timers not cancelled since
+            for c in cbs:
+                if c["kind"] == "timer" and owed[(c["n"], c["key"])][c["t"]] > 0:
+                    owed[(c["n"], c["key"])][c["t"]] -= 1
+                if c["kind"] == "finish":
+                    continue
+                for req, ok, _ in c["reqs"]:
+                    if req[0] == "cancelTimer" and ok:
+                        owed[(c["n"], req[1])].clear()
+                    elif req[0] == "setTimer" and ok:
+                        owed[(c["n"], req[1])][req[2]] += 1
+            for (node, name), left in owed.items():
+                for ts, v in left.items():
+                    if v > 0:
+                        fails.append(("C02:lost", f"timer ({node}, {name!r}, {ts}) was accepted and not cancelled afterwards, "
+                                      f"but {v} of its callbacks never ran in a run that ended by exhaustion"))
+        if case["drive"]["mode"] == "steps" and case["cfg"]["handlers"] and not case["drive"].get("untilDone"):
+            # a step_simulation call that reports "still running" (or out of which a callback's exception escaped)
+            # executed exactly one event; only the call that completes the run may execute one and report the end
+            trues = sum(1 for x in impl["rets"] if x)
+            done = len(afters(impl["trace"])) + len(impl.get("raisedAt", []))
+            if not (trues <= done <= trues + 1):
+                fails.append(("C02:step-without-event", f"{trues} step_simulation calls reported a running simulation "
+                              f"but {done} events were executed"))
         if completed(case, impl) and case["cfg"]["handlers"]:
             # an event whose callback let an exception escape was executed, but its after-step hooks were not reached
             executed = len(afters(impl["trace"])) + len(impl.get("raisedAt", []))
@@ -771,7 +790,7 @@ class C05(SimCheck):
             it += 1
         # "... and that event's timestamp": the callback an executed event made reported the instant the event was
         # due (C01); the hooks that follow it must be given that very instant
-        if cfg["hasTimer"]:
+        if cfg["hasTimer"] and not impl.get("raisedAt"):
             pending = []
             for e in impl["trace"]:
                 if e[0] == "cb" and e[2] in ("timer", "packet", "telemetry"):
@@ -1004,6 +1023,13 @@ class C08(SimCheck):
             scn["profile"]["w"] = dict(scn["profile"]["w"], setRange=2.5)
             scn["profile"]["ranges"] = [1.0e6, 1000.0, 250.0, 150.0, 1.0e6, 60.0, 25.0, 10.0, 0.0, float("inf")]
             cfg["defaultRange"] = fbits(r.choice([1.0e6, 1.0e6, 60.0, 30.0]))
+        elif r.random() < 0.15:
+            # integer times beyond 2^53 with "no delay" written 0 or 0.0: delivered at exactly the send time
+            scn = simgen.make_bigint(scn, r)
+            scn["cfg"]["delay"] = r.choice([0, 0, 1])
+            scn["floatZeroDelay"] = r.random() < 0.6
+            scn["profile"]["budget"] = 200          # enough reactions left for the timers at the large times to send
+            scn["profile"]["maxHops"] = 2
         return scn
 
     def run_impl(self, case):
